@@ -52,10 +52,10 @@ func mergeSel(a, b *selNode) *selNode {
 }
 
 type reqChecker struct {
-	c    *Config
-	g    *Subgraph
-	doc  *ast.Document
-	out  []string
+	c   *Config
+	g   *Subgraph
+	doc *ast.Document
+	out []string
 	// fields selected directly under "... on T" of _entities (for the requires check)
 	entityFields map[string][]string
 	depth        int
